@@ -25,9 +25,13 @@ structure Cfg where
   nonBlocking : Bool    -- the handler's send is a `select` case with a `default`
   timeoutMs : Nat
   watchdog : Bool := false  -- the sm.Client is built with `EnableWatchdog: true` (one watchdog task per connection)
+  serial : Bool := true     -- every call of the client function is an ordinary call made by the charging operation
+                            -- itself (which holds the subscriber lock): no call site sits in a `go` statement, a deferred
+                            -- call or a function literal, directly or through a helper function
 deriving DecidableEq, Repr
 
-def Cfg.good (c : Cfg) : Bool := c.closesConn && c.ownChan && c.buffered && c.nonBlocking && decide (0 < c.timeoutMs)
+def Cfg.good (c : Cfg) : Bool :=
+  c.closesConn && c.ownChan && c.buffered && c.nonBlocking && decide (0 < c.timeoutMs) && c.serial
 
 inductive Outcome where
   | own (k : Nat)               -- request k acted upon the answer to request k
@@ -79,7 +83,9 @@ def drain (cfg : Cfg) (s : St) : St :=
 def step (cfg : Cfg) (s : St) : Ev → St
   | .start =>
     if s.wedged then s
-    else if s.cur.isSome || s.returning.isSome then s        -- subscriber lock: one request at a time
+    else if cfg.serial && (s.cur.isSome || s.returning.isSome) then s   -- subscriber lock: one request at a time
+    -- (a request made in the background - `serial = false` - starts while another one waits: that one keeps its
+    --  connection, is no longer the registered receiver and will not be heard of again)
     else if s.blocked > 0 then { s with wedged := true }     -- Handle() waits for the write lock for ever
     else
       drain cfg { s with next := s.next + 1, cur := some s.next, conns := s.next :: s.conns, reg := chanOf cfg s.next }
